@@ -2,7 +2,7 @@
 (* I->S binding for C04.  Every line of the trace is one retrieval that was   *)
 (* really attempted on a compiled package:                                   *)
 (*   [item |-> the script item (TypeGate.Fn / TypeGate.Fm record),           *)
-(*    nameclass |-> "declared" | "unknown" | "helper",                       *)
+(*    nameclass |-> "declared" | "unknown" | "helper" | "nonfn",                       *)
 (*    rust |-> [params, ret] of the Rust function type F that was requested, *)
 (*    res |-> "ok" (a handle came back) | "err"]                             *)
 (* The event is a step of this spec iff res is exactly TypeGate's verdict,   *)
